@@ -36,7 +36,8 @@ import (
 // ---------------------------------------------------------------- domains
 
 // passphrases: 0,1 private candidates; 2,3 public candidates; 4 ill-formed; 5 another well-formed one never set.
-var wPass = []string{"P0priv@#aaaaaaaa", "P1priv@#bbbbbbbb", "Q0publ@#cccccccc", "Q1publ@#dddddddd", "bad!", "X9other@#eeeeeee"}
+// (lengths differ on purpose: length-dependent handling of passphrases must show)
+var wPass = []string{"P0priv@#aaaaaaaa", "P1priv@#bbbb", "Q0publ@#cccccccc", "Q1publ@#dddddddddddd", "bad!", "X9other@#e"}
 
 const (
 	wP0, wP1, wQ0, wQ1, wBad, wOther = 0, 1, 2, 3, 4, 5
